@@ -42,6 +42,7 @@ package watch
 //@   modifies *
 //@   ensures #C20.unsubscribed-events-ignored !old(w.events[fsnotifyMap[event.Op]]) ==> calls(Run) == 0
 //@   ensures #C20.subscribed-events-run-the-task old(w.events[fsnotifyMap[event.Op]]) ==> calls(Run) == 1
+//@   ensures #C20.handler-unregisters-exactly-once calls(Done) == 1 // Run waits for its handlers (eventsWg) before it returns
 //@   callsite Run
 //@     requires #C20.runs-a-copy arg0 != w.task && arg0 != nil
 //@     requires #C20.event-env cdom[arg0.Env]["EventName"] && cval[arg0.Env]["EventName"] == boxstr(fsnotifyMap[event.Op]) && cdom[arg0.Env]["EventPath"] && cval[arg0.Env]["EventPath"] == boxstr(event.Name)
@@ -53,6 +54,9 @@ package watch
 // ---- C20: the watcher keeps serving events for as long as it runs: the event loop ends only
 // when the watcher was closed or the notification backend closed one of its channels
 //@ func (*Watcher).Run$2
+// (not claimed: `no lock-held at return` — the polling goroutine leaves w.mu locked when it sees isClosed and
+// breaks out of its loop; nothing locks w.mu afterwards unless Close is called a second time, see DESIGN §6)
+//@   effect unlock-only-held
 //@   waive safe.close "finished is closed only by this goroutine, started once per Run; double-close safety of a watcher run twice is not part of C20"
 //@   requires w != nil && w.fsw != nil && w.r != nil && runnerOK(w.r) && w.task != nil && taskOK(w.task) && compiledClosed()
 //@   modifies *
